@@ -48,6 +48,7 @@ func (u *Unit) callVals(fr *Frame, st *State, c *ssa.CallCommon, fn Val, args []
 			u.escape(st, fn)
 		}
 	}
+	u.atCallChecks(fr, st, c, fn, pos)
 	if c.IsInvoke() {
 		key := ifaceMethodKey(c)
 		recv := fn
@@ -860,7 +861,13 @@ func (u *Unit) lockOp(st *State, args []Val, pos token.Pos, acquire bool) {
 	}
 	s, _ := u.structOf(or.structT)
 	selfT := types.NewPointer(or.structT)
+	heldKey := or.base.S + "|" + li.Mutex
 	if acquire {
+		if st.held == nil {
+			st.held = map[string]*Term{}
+		}
+		st.held[heldKey] = or.base
+		u.lockedInvs[li.TypeName+"."+li.Mutex] = true
 		for _, fname := range li.Fields {
 			for i := 0; i < s.NumFields(); i++ {
 				if s.Field(i).Name() == fname {
@@ -878,6 +885,7 @@ func (u *Unit) lockOp(st *State, args []Val, pos token.Pos, acquire bool) {
 		u.assume(st, u.evalBoolF(env, st, li.Clause.Expr))
 		return
 	}
+	delete(st.held, heldKey)
 	env := &Env{u: u, st: st, old: st, vars: map[string]envVar{"self": {or.base, selfT}}, pkgPath: li.PkgPath, fvOverride: map[string]freeVarInfo{}}
 	u.addObl(st, "lockinv/unlock", "lock invariant of "+shortName(namedKey(or.structT))+"."+or.field+" holds at Unlock: "+li.Clause.Src, pos, u.evalBoolF(env, st, li.Clause.Expr))
 }
@@ -1037,4 +1045,40 @@ func (u *Unit) byteView(fr *Frame, st *State, c *ssa.CallCommon, n *Term) (Val, 
 	st.heap[name] = u.ctx.Define(name, Store(hm, ref, cur))
 	u.note("unsafe.Slice over an 8-byte integer variable: little-endian snapshot of its bytes")
 	return u.ctx.Define("byteview", mkslice(ref, IntLit(0), n, n)), true
+}
+
+// atCallChecks: the "at <callee>" assertions of the function being executed.
+func (u *Unit) atCallChecks(fr *Frame, st *State, c *ssa.CallCommon, fn Val, pos token.Pos) {
+	if fr.contract == nil || len(fr.contract.AtCalls) == 0 {
+		return
+	}
+	var key string
+	switch {
+	case c.IsInvoke():
+		key = ifaceMethodKey(c)
+	default:
+		switch f := fn.(type) {
+		case *FnVal:
+			key = funcKey(f.Fn)
+		case *BoundVal:
+			key = funcKey(f.Fn)
+		case *ClosureVal:
+			key = funcKey(f.Fn)
+		default:
+			return
+		}
+	}
+	for _, at := range fr.contract.AtCalls {
+		if !strings.Contains(key, at.Callee) {
+			continue
+		}
+		label := at.Clause.Label
+		if label == "" {
+			label = "1"
+		}
+		u.counters["at@"+at.Callee+"#"+label]++
+		name := fmt.Sprintf("at@%s#%s/site%d", at.Callee, label, u.counters["at@"+at.Callee+"#"+label])
+		env := u.envFor(fr, st, u.entry, nil)
+		u.addOblNamed(st, "at", name, "at the call of "+shortName(key)+": "+at.Clause.Src, pos, u.evalBoolF(env, st, at.Clause.Expr))
+	}
 }
